@@ -217,6 +217,25 @@ def run(scn, stats):
     # run in one twin and fail in the other; only the status is compared there)
     if sp == "succeeded" and ep_ != eh_:
         raise Violation("errors-differ", dict(info, status=sp, paused_twin=ep_, plain_twin=eh_, history=hist, events=ev))
+    if sp == "failed" and ep_ == eh_ and collections.Counter(drvp.dispatched) == collections.Counter(drvh.dispatched) and not drvh.inflight and not drvp.inflight:
+        # both twins failed for the same reasons after running exactly the same actions: the output, rendered
+        # from what was published, must agree as well
+        try:
+            drvp.apply({"op": "output"})
+            drvh.apply({"op": "output"})
+        except provider.EngineException as e:
+            stats.engine_exception(e, scn)
+            return
+        op_, oh = drvp.c.get_workflow_output() or {}, drvh.c.get_workflow_output() or {}
+        pubs = collections.Counter()
+        for c in drvh.c.serialize()["state"]["contexts"][1:]:
+            for kx in c:
+                pubs[kx] += 1
+        for name in set(op_) | set(oh):
+            var = name[:-4] if name.endswith("_out") else name
+            if pubs[var] <= 1 and common.jd(op_.get(name)) != common.jd(oh.get(name)):
+                raise Violation("output-of-failed-twins-differs", dict(info, variable=var, paused_twin=op_.get(name), plain_twin=oh.get(name), history=hist, events=ev))
+        stats.label("failed-twins-output-compared")
     if sp == "succeeded":
         ep = collections.Counter(t for t, r, i in drvp.dispatched)
         eh = collections.Counter(t for t, r, i in drvh.dispatched)
